@@ -26,6 +26,8 @@ FRAMES = {
     'fk5': {'ctype': ('RA', 'DEC'), 'radesys': 'FK5'},
     'fk4': {'ctype': ('RA', 'DEC'), 'radesys': 'FK4'},
     'galactic': {'ctype': ('GLON', 'GLAT'), 'radesys': None},
+    # FK5 with a non-default equinox: sky coordinates carry a frame attribute that must not be lost on the way
+    'fk5_j1975': {'ctype': ('RA', 'DEC'), 'radesys': 'FK5', 'equinox': 1975.0},
 }
 DEG = math.pi / 180.0
 ULP360 = math.ulp(360.0)
@@ -49,7 +51,8 @@ def make_wcs(ws):
         with warnings.catch_warnings():
             warnings.simplefilter('ignore')
             w = wcs_simple(rot_deg=ws['rot'], cdelt=ws['scale'], proj=ws['proj'], ctype=fr['ctype'],
-                           crval=tuple(ws['crval']), crpix=CRPIX_FITS, flip=ws['flip'], radesys=fr['radesys'])
+                           crval=tuple(ws['crval']), crpix=CRPIX_FITS, flip=ws['flip'], radesys=fr['radesys'],
+                           equinox=fr.get('equinox'))
         if len(_WCS) > 64:
             _WCS.clear()
         _WCS[key] = w
